@@ -27,6 +27,7 @@ func runC20(c *Ctx) {
 	c.Min("C20.dst", 10)
 	poolRule(c, "C20.pool", []string{"/compress"})
 	runCodecResultRule(c, "C20.result", 4)
+	runRetryRule(c, "C20.retry", func(fn *ssa.Function) bool { return inModule(fn) }, 60)
 	c20Stateless(c)
 	runTableRule(c, "C20.tables", "compressionCodecs", "CompressionCodec", 6)
 }
@@ -262,6 +263,85 @@ func poolRule(c *Ctx, rule string, pkgPrefixes []string) {
 			})
 		}
 		c.Check(rule, "Decompressor.Decode pools a reader only when its Reset succeeded", fn.Pos(), ok, "a reader left in a failed state by the previous (possibly corrupt) input is returned to the pool and handed to the next Decode")
+		// … and only when the decode itself succeeded: Reset of a reader that
+		// failed need not clear everything (brotli keeps unread input)
+		okErr := false
+		for _, sf := range scope {
+			allCalls(sf, true, func(in *ssa.Function, call ssa.CallInstruction) {
+				if !isPut(call) {
+					return
+				}
+				for _, b := range in.Blocks {
+					if len(b.Instrs) == 0 {
+						continue
+					}
+					ifi, isIf := b.Instrs[len(b.Instrs)-1].(*ssa.If)
+					if !isIf {
+						continue
+					}
+					bo, isB := ifi.Cond.(*ssa.BinOp)
+					if !isB || !(isNilConst(bo.X) || isNilConst(bo.Y)) {
+						continue
+					}
+					ownErr := false
+					for _, side := range []ssa.Value{bo.X, bo.Y} {
+						if isErrorResultOf(fn, side) {
+							ownErr = true
+						}
+					}
+					if !ownErr {
+						continue
+					}
+					nilEdge := b.Succs[0]
+					if bo.Op == token.NEQ {
+						nilEdge = b.Succs[1]
+					}
+					if nilEdge.Dominates(call.Block()) {
+						okErr = true
+					}
+				}
+			})
+		}
+		c.Check(rule, "Decompressor.Decode pools a reader only when the decode succeeded", fn.Pos(), okErr, "a reader that failed to decode its input is reset and returned to the pool: Reset need not clear everything a failure leaves behind (unread input, a sticky error), and the next Decode of a valid input on the same codec fails")
+	}
+	// failures reported by panicking inside the functions given to Pool.Get are recovered
+	for _, k := range []string{"compress.(*Decompressor).Decode", "compress.(*Compressor).Encode"} {
+		obj := p.LookupFunc(k)
+		if !c.Anchor(rule, k, obj != nil) {
+			continue
+		}
+		fn := p.SSAFunc(obj)
+		panics := false
+		for _, a := range fn.AnonFuncs {
+			allInstrs(a, true, func(_ *ssa.Function, ins ssa.Instruction) {
+				if _, ok := ins.(*ssa.Panic); ok {
+					panics = true
+				}
+			})
+		}
+		recovers := false
+		allCalls(fn, false, func(_ *ssa.Function, call ssa.CallInstruction) {
+			d, ok := call.(*ssa.Defer)
+			if !ok {
+				return
+			}
+			var target *ssa.Function
+			switch v := d.Call.Value.(type) {
+			case *ssa.Function:
+				target = v
+			case *ssa.MakeClosure:
+				target, _ = v.Fn.(*ssa.Function)
+			}
+			if target == nil {
+				return
+			}
+			allCalls(target, true, func(_ *ssa.Function, c2 ssa.CallInstruction) {
+				if b, ok := c2.Common().Value.(*ssa.Builtin); ok && b.Name() == "recover" {
+					recovers = true
+				}
+			})
+		})
+		c.Check(rule, k+": panics of the functions given to the pool are recovered", fn.Pos(), !panics || recovers, k+" hands functions that panic on failure to Pool.Get but defers nothing that recovers: a bad header in the input makes the codec panic instead of returning an error")
 	}
 	c.Min(rule, 6)
 }
@@ -457,4 +537,52 @@ func poolDetachRule(c *Ctx, rule string, isGet, isPut func(ssa.CallInstruction) 
 		}
 	}
 	c.Stats[rule+".pooled_outputs_returned"] = n
+}
+
+// isErrorResultOf: v is (a load of) the named error result of fn.
+func isErrorResultOf(fn *ssa.Function, v ssa.Value) bool {
+	u, ok := v.(*ssa.UnOp)
+	if !ok || u.Op != token.MUL {
+		return false
+	}
+	cell := u.X
+	// inside a deferred closure the result cell is a free variable bound to the parent's alloc
+	if fv, ok := cell.(*ssa.FreeVar); ok {
+		parent := fv.Parent().Parent()
+		if parent == nil {
+			return false
+		}
+		for _, ins := range allMakeClosures(parent) {
+			if ins.Fn == ssa.Value(fv.Parent()) {
+				for i, b := range ins.Bindings {
+					if i < len(fv.Parent().FreeVars) && fv.Parent().FreeVars[i] == fv {
+						cell = b
+					}
+				}
+			}
+		}
+	}
+	al, ok := cell.(*ssa.Alloc)
+	if !ok || !isErrorType(al.Type().(*types.Pointer).Elem()) {
+		return false
+	}
+	// a result cell is loaded by the return sequence of its function
+	for _, ret := range returnsOf(al.Parent()) {
+		for _, r := range ret.Results {
+			if l, ok := r.(*ssa.UnOp); ok && l.X == ssa.Value(al) {
+				return true
+			}
+		}
+	}
+	return false
+}
+
+func allMakeClosures(fn *ssa.Function) []*ssa.MakeClosure {
+	var out []*ssa.MakeClosure
+	allInstrs(fn, false, func(_ *ssa.Function, ins ssa.Instruction) {
+		if mc, ok := ins.(*ssa.MakeClosure); ok {
+			out = append(out, mc)
+		}
+	})
+	return out
 }
